@@ -8,6 +8,7 @@ import (
 	"reflect"
 
 	"github.com/go-kit/log"
+	metallbconfig "go.universe.tf/metallb/internal/config"
 	vr "go.universe.tf/metallb/internal/verifrt"
 )
 
@@ -151,4 +152,52 @@ func vhTempDir() string {
 		panic(err)
 	}
 	return d
+}
+
+func init() {
+	verifHarnesses["VerifManagerReload"] = func(a []int) { VerifManagerReload() }
+}
+
+// VerifManagerReload (C19 at the level of the session manager): the configuration the manager submits
+// after every change (BFD profile sync, extra configuration) reaches the reload body: after each change and
+// the expiry of the debounce timer, the configuration applied last shows the change. A submitted
+// configuration must not be altered by later changes (it is compared with the next one to drop no-ops).
+func VerifManagerReload() {
+	osHostname = func() (string, error) { return "verif-host", nil }
+	sm := &sessionManager{sessions: map[string]*session{}, bfdProfiles: []BFDProfile{}, reloadConfig: make(chan reloadEvent), logLevel: "informational"}
+	var lastRx uint32
+	lastExtra := ""
+	applies := 0
+	body := func(c *frrConfig) error {
+		applies++
+		lastRx = 0
+		if len(c.BFDProfiles) > 0 && c.BFDProfiles[0].ReceiveInterval != nil {
+			lastRx = *c.BFDProfiles[0].ReceiveInterval
+		}
+		lastExtra = c.ExtraConfig
+		return nil
+	}
+	debouncer(body, sm.reloadConfig, vr.TimerDuration, vr.TimerDuration, log.NewNopLogger())
+	rx := func(v uint32) map[string]*metallbconfig.BFDProfile {
+		return map[string]*metallbconfig.BFDProfile{"fast": {Name: "fast", ReceiveInterval: &v}}
+	}
+	wantRx, wantExtra := uint32(0), ""
+	for i := 0; i < 3; i++ {
+		switch vr.Choose(3) {
+		case 0:
+			wantRx = uint32(100 * (1 + vr.Choose(2)))
+			vr.Assert(sm.SyncBFDProfiles(rx(wantRx)) == nil, "SyncBFDProfiles failed")
+		case 1:
+			wantExtra = vr.PickString("", "debug bgp updates")
+			vr.Assert(sm.SyncExtraInfo(wantExtra) == nil, "SyncExtraInfo failed")
+		case 2:
+			// nothing changes in this round
+		}
+		vr.Yield()
+		vr.FireTimer()
+		vr.Yield()
+		vr.Assert(applies == 0 || (lastRx == wantRx && lastExtra == wantExtra), "after the debounce timer the applied configuration does not show the latest change")
+	}
+	vr.Assert(applies > 0 || (wantRx == 0 && wantExtra == ""), "changes were submitted but nothing was ever applied")
+	vr.Reach("manager reload settled")
 }
